@@ -426,6 +426,9 @@ func c01Site(c *Ctx, bc *boundsCtx, fn *ssa.Function, b *ssa.BasicBlock, ins ssa
 			}
 			return desc, fmt.Sprintf("constant index %d of a slice is not dominated by a test that its length exceeds %d (directly or through a flag that is set only under such a test)", k.Int64(), k.Int64()), false, true
 		}
+		if ir := bc.rangeAt(idx, b); ir.okLo && ir.lo >= 0 && idxBelowLen(fn, b, idx, x) {
+			return desc, "interval + guard: index >= 0 and dominated by index < len of the same slice (which nothing between the test and the use can change)", true, true
+		}
 		if why, ok := audited(desc); ok {
 			return desc, why, true, true
 		}
@@ -835,7 +838,12 @@ func c01Loops(c *Ctx, r *Report, scope []*ssa.Function) {
 					inv := true
 					if bi, ok := bo.Y.(ssa.Instruction); ok && body[bi.Block()] {
 						if call, ok := bo.Y.(*ssa.Call); ok {
-							if f := call.Common().StaticCallee(); f == nil || !(strings.HasSuffix(f.String(), ".Size") || strings.HasSuffix(f.String(), ".NumField") || strings.HasSuffix(f.String(), ".Len")) {
+							if bl, isB := call.Common().Value.(*ssa.Builtin); isB && (bl.Name() == "len" || bl.Name() == "cap") && len(call.Common().Args) == 1 {
+								// len of a slice loaded from a local structure that nothing in the loop can change
+								if ld, isLd := call.Common().Args[0].(*ssa.UnOp); !isLd || !samePathLoad(ld, ld) {
+									inv = false
+								}
+							} else if f := call.Common().StaticCallee(); f == nil || !(strings.HasSuffix(f.String(), ".Size") || strings.HasSuffix(f.String(), ".NumField") || strings.HasSuffix(f.String(), ".Len")) {
 								inv = false
 							}
 						} else if _, isLoad := bo.Y.(*ssa.UnOp); !isLoad {
@@ -1187,4 +1195,34 @@ func keysOfStr(m map[string]bool) []string {
 	}
 	sort.Strings(ks)
 	return ks
+}
+
+// idxBelowLen: b is dominated by the true edge of `idx < len(S)` (or `len(S) > idx`) where S is the
+// indexed slice value itself or a second load of the same location (samePathLoad).
+func idxBelowLen(fn *ssa.Function, b *ssa.BasicBlock, idx, slice ssa.Value) bool {
+	isLenOf := func(v ssa.Value) bool {
+		call, ok := v.(*ssa.Call)
+		if !ok {
+			return false
+		}
+		bi, ok := call.Common().Value.(*ssa.Builtin)
+		if !ok || bi.Name() != "len" || len(call.Common().Args) != 1 {
+			return false
+		}
+		a := call.Common().Args[0]
+		return a == slice || samePathLoad(a, slice)
+	}
+	return domByBoolEdge(fn, b, true, func(v ssa.Value) bool {
+		bo, ok := v.(*ssa.BinOp)
+		if !ok {
+			return false
+		}
+		switch bo.Op {
+		case token.LSS:
+			return (bo.X == idx || stripConv(bo.X) == idx) && isLenOf(bo.Y)
+		case token.GTR:
+			return (bo.Y == idx || stripConv(bo.Y) == idx) && isLenOf(bo.X)
+		}
+		return false
+	})
 }
